@@ -534,8 +534,93 @@ def validate_collect_heap(rng, n_cases, res):
     res.extra["translation_validation_collect"] = stats
 
 
+def validate_info(rng, n, res):
+    """`masks_compatible` and `Info.accepts` of the package on the catalogue of C07 (grids, units, explicit masks, the two
+    `Mask` members, `None`) against the translated definitions; what the package says about two grids / units / explicit
+    masks goes to the translated code as tables computed from the live package"""
+    from finam.data.tools import mask as mtools
+    from .engines import c07
+
+    if not all(common.TRANSLATION_STATUS.get(f, {}).get("translated") for f in ("masks_compatible", "Info_accepts")):
+        return
+    ng = len(c07.GRIDS)
+    gobj = lambda g: None if g is None else c07.GRIDS[g][1]  # noqa
+    mcode = lambda m: None if m is None else (-1 if m == "flex" else -2 if m == "none" else m)  # noqa
+    mobj = lambda m: None if m is None else (fm.Mask.FLEX if m == "flex" else fm.Mask.NONE if m == "none" else c07.MASKS[m])  # noqa
+    gopts = [None] + list(range(ng))
+    mopts = [None, "flex", "none"] + list(c07.MASKS)
+    uids = list(range(c07.N_UNITS))
+
+    def fits(m, g):
+        return not isinstance(m, int) or g is None or c07.GRID_NAMES[g] in c07.MASK_FITS[m]
+
+    def safe(f, *a):
+        try:
+            return bool(f(*a))
+        except Exception:  # noqa
+            return None
+
+    me_cache = {}
+
+    def me_table(pairs):
+        out = []
+        for (a, b, g1, g2) in pairs:
+            k = (a, b, g1, g2)
+            if k not in me_cache:
+                me_cache[k] = safe(mtools.masks_equal, mobj(a), mobj(b), gobj(g1), gobj(g2))
+            if me_cache[k]:
+                out.append([[mcode(a), mcode(b)], [g1, g2]])
+        return out
+
+    reqs, reals = [], []
+    for _ in range(n):
+        this, inc = rng.choice(mopts), rng.choice(mopts)
+        tg, ig = rng.choice(gopts), rng.choice(gopts)
+        if not (fits(this, tg) and fits(inc, ig)):
+            continue
+        ds = rng.random() < 0.5
+        tab = me_table([(a, b, g1, g2) for a in (this, inc) for b in (this, inc) for g1 in (tg, ig) for g2 in (tg, ig)])
+        real = safe(mtools.masks_compatible, mobj(this), mobj(inc), ds, gobj(tg), gobj(ig))
+        if real is None:
+            continue
+        reqs.append({"fn": "masks_compatible", "args": [mcode(this), mcode(inc), ds, tg, ig, tab]})
+        reals.append(real)
+        # Info.accepts
+        su, iu = rng.choice([None] + uids), rng.choice([None] + uids)
+        if tg is None and isinstance(this, int):
+            continue
+        try:
+            self_info = fm.Info(time=None, grid=gobj(tg), units=None if su is None else c07.unit_obj(su), mask=mobj(this))
+            self_info.mask = mobj(this)
+            inc_info = fm.Info(time=None, grid=gobj(ig), units=None if iu is None else c07.unit_obj(iu), mask=mobj(inc))
+            inc_info.mask = mobj(inc)
+        except Exception:  # noqa
+            continue
+        if (self_info.units is None) != (su is None) or (inc_info.units is None) != (iu is None):
+            continue
+        real = safe(self_info.accepts, inc_info, {}, ds)
+        if real is None:
+            continue
+        gc = [[tg, ig]] if tg is not None and safe(gobj(tg).compatible_with, gobj(ig)) else []
+        uc = [[su, iu]] if su is not None and iu is not None and safe(fm.data.tools.compatible_units, c07.unit_obj(su), c07.unit_obj(iu)) else []
+        reqs.append({"fn": "Info_accepts", "args": [tg, mcode(this), su, ds, ig, mcode(inc), iu, gc, uc, tab]})
+        reals.append(real)
+    if not reqs:
+        return
+    stats = {"masks_compatible": 0, "Info_accepts": 0, "accepted": 0, "mismatch": 0}
+    for rq, real, lv in zip(reqs, reals, _trdriver(reqs)):
+        stats[rq["fn"]] += 1
+        stats["accepted"] += bool(real)
+        if lv.get("ok") is not real:
+            stats["mismatch"] += 1
+            res.diverge("translation/" + rq["fn"], {"fn": rq["fn"], "args": rq["args"]}, real, lv)
+    res.extra["translation_validation_info"] = stats
+
+
 def validate(prop, rng, n_per_fn, res):
     """runs the validation for the translated functions owned by `prop`; divergences go to `res`"""
+    if prop == "C07" and os.path.exists(TRDRIVER):
+        validate_info(rng, max(1500, 10 * n_per_fn), res)
     if prop == "C03" and os.path.exists(TRDRIVER):
         validate_collect_heap(rng, max(20, n_per_fn), res)
     if prop == "C03" and os.path.exists(TRDRIVER):
